@@ -172,6 +172,21 @@ fn run_case_inner(rec: &mut Rec, d: &Value) {
             rec.ev("farbin", json!({ "items": items }));
             rec.nontrivial();
         }
+        // rectangles that end on (or just before) the last column / row of the coordinate range
+        "edge" => {
+            rec.begin(d.clone());
+            let mut items = vec![];
+            for rj in d["rects"].as_array().unwrap() {
+                let r = rect_from(rj);
+                let corner = Point::new((r.top_left.x as i64 + r.size.width as i64 - 1) as i32, (r.top_left.y as i64 + r.size.height as i64 - 1) as i32);
+                match catch(|| (r.bottom_right(), r.contains(corner), r.contains(r.top_left))) {
+                    Ok((br, c1, c2)) => items.push(json!([rect_json(&r), br.map_or(json!([]), pt_json), c1 as i32, c2 as i32, 0])),
+                    Err(_) => items.push(json!([rect_json(&r), [], 0, 0, 1])),
+                }
+            }
+            rec.ev("edge", json!({ "items": items }));
+            rec.nontrivial();
+        }
         "un" => {
             rec.begin(d.clone());
             let r = rect_from(&d["r"]);
@@ -287,6 +302,20 @@ fn main() {
             for chunk in pairs.chunks(49) {
                 run_case(&mut rec, &json!({"k":"farpairs","pairs":chunk}));
             }
+        }
+        // rectangles ending exactly on / one before i32::MAX in x, y or both
+        {
+            let mut rects = vec![];
+            for (w, h) in [(1u32, 1u32), (4, 6), (900, 2), (1, 700), (65536, 3)] {
+                for back in [0i64, 1] {
+                    let x = (i32::MAX as i64 - back - w as i64 + 1) as i32;
+                    let y = (i32::MAX as i64 - back - h as i64 + 1) as i32;
+                    rects.push(json!([x, 5, w, h]));
+                    rects.push(json!([-7, y, w, h]));
+                    rects.push(json!([x, y, w, h]));
+                }
+            }
+            run_case(&mut rec, &json!({"k":"edge","rects":rects}));
         }
         for n in 0..nun {
             let (m, smax) = match n % 3 {
